@@ -46,19 +46,490 @@ inductive TriviaEdit (ρ : Nat → Nat → Prop) : List Lexed → List Lexed →
   /-- whole trivia lines (blank, whitespace-only, comment-only, multi-line comments) `ins` inserted
   directly after the `NewLine` token `n` -/
   | line (pre ins post post' : List Lexed) (n : Lexed) :
-      n.tok = .newLine → AllTrivia ins → Fixed ρ (pre ++ [n]) → Moved ρ post post' →
+      n.tok = .newLine → AllTrivia ins → Fixed ρ pre → Moved ρ post post' →
       TriviaEdit ρ (pre ++ n :: post) (pre ++ n :: (ins ++ post'))
 
 theorem trivia_edit_sim {ρ ts ts'} (e : TriviaEdit ρ ts ts') : Sim ρ ts ts' := by
   cases e with
   | eol pre ins post post' n n' hn hi hf hm =>
     cases hm with
-    | cons tr m =>
-      have hn' : n'.tok = .newLine := by rw [tr.tok]; exact hn
+    | cons he _ m =>
+      have hn' : n'.tok = .newLine := by rw [he]; exact hn
       have := Sim.regap (ρ := ρ) [] ins hn hn' AllTrivia.nil hi.trivia m.sim
       exact Sim.prefix hf (by simpa using this)
   | line pre ins post post' n hn hi hf hm =>
-    have hfp : Fixed ρ pre := fun t ht => hf t (List.mem_append_left _ ht)
-    exact Sim.prefix hfp (Sim.after_nl ins hn hi hm.sim)
+    exact Sim.prefix hf (Sim.after_nl ins hn hi hm.sim)
+
+
+/-! ### what "equal results" means -/
+
+/-- results of `peek_token_with_context` correspond: both reject, or both accept tokens that agree
+in everything the parser can observe (the peek counts differ by the inserted trivia) -/
+inductive PeekRel (ρ : Nat → Nat → Prop) : Option PeekInfo → Option PeekInfo → Prop
+  | none : PeekRel ρ none none
+  | some {i i' : PeekInfo} : i'.tok = i.tok → TokRel ρ i.info i'.info → PeekRel ρ (some i) (some i')
+
+/-- cursors directly in front of corresponding significant tokens (or both at the end) -/
+def PreRel (ρ : Nat → Nat → Prop) (l l' : List Lexed) : Prop :=
+  (l = [] ∧ l' = []) ∨
+  ∃ t t' r r', l = t :: r ∧ l' = t' :: r' ∧ isTrivia t.tok = false ∧ TokRel ρ t t' ∧ Sim ρ r r'
+
+/-- Everything `cursor_invariant_ctx` asserts about one pair of corresponding cursors. -/
+structure CtxInvariant (ρ : Nat → Nat → Prop) (ctx : Ctx) (c c' : Cur) : Prop where
+  indent : currentIndent c' = currentIndent c
+  line : ρ (currentLine c) (currentLine c')
+  peek : PeekRel ρ (peekTokenWithContext ctx c) (peekTokenWithContext ctx c')
+  /-- same token kind, same new context (`Equal(indent)` + `allow_map_block`, or unchanged) -/
+  consume : (consumeTokenWithContext ctx c').1 = (consumeTokenWithContext ctx c).1
+  consume_cur : (consumeTokenWithContext ctx c).1.isSome = true →
+    CurRel ρ (consumeTokenWithContext ctx c).2.cur (consumeTokenWithContext ctx c').2.cur
+  consume_rest : Sim ρ (consumeTokenWithContext ctx c).2.rest (consumeTokenWithContext ctx c').2.rest
+  untilCtx : (consumeUntilTokenWithContext ctx c').1 = (consumeUntilTokenWithContext ctx c).1
+  untilCtx_rest : PreRel ρ (consumeUntilTokenWithContext ctx c).2.rest (consumeUntilTokenWithContext ctx c').2.rest
+  sameLine : peekNextTokenOnSameLine c' = peekNextTokenOnSameLine c
+  sameLineSpan : (peekNextTokenOnSameLineWithSpan c').map (·.1) = (peekNextTokenOnSameLineWithSpan c).map (·.1)
+  consumeSameLine : (consumeNextTokenOnSameLine c').1 = (consumeNextTokenOnSameLine c).1
+  /-- unless the token consumed is the `NewLine` itself (the parser does that on error paths only) -/
+  consumeSameLine_post : (consumeNextTokenOnSameLine c).1.isSome = true →
+    (consumeNextTokenOnSameLine c).1 ≠ some .newLine →
+    CurRel ρ (consumeNextTokenOnSameLine c).2.cur (consumeNextTokenOnSameLine c').2.cur ∧
+    Sim ρ (consumeNextTokenOnSameLine c).2.rest (consumeNextTokenOnSameLine c').2.rest
+  untilSameLine : peekToken (consumeUntilNextTokenOnSameLine c') = peekToken (consumeUntilNextTokenOnSameLine c)
+  untilSameLine_rest : peekToken (consumeUntilNextTokenOnSameLine c) ≠ some .newLine →
+    PreRel ρ (consumeUntilNextTokenOnSameLine c).rest (consumeUntilNextTokenOnSameLine c').rest
+
+theorem peekDecide_rel {ρ} (ctx : Ctx) {si si' : Nat} {t t' : Lexed} (n n' : Nat) (sl : Bool)
+    (hsi : si' = si) (tr : TokRel ρ t t') :
+    PeekRel ρ (peekDecide ctx si t n sl) (peekDecide ctx si' t' n' sl) := by
+  subst hsi
+  unfold peekDecide
+  rw [tr.indent]
+  split
+  · exact PeekRel.some tr.tok tr
+  · split
+    · split
+      · exact PeekRel.some tr.tok tr
+      · exact PeekRel.none
+    · exact PeekRel.none
+
+/-- **Main theorem.** For all token lists related by trivia edits (`Sim ρ`, see `trivia_edit_sim`),
+all contexts, and all corresponding cursors on significant tokens (`CurRel`: same indent, end lines
+related), every trivia-skipping primitive of the cursor layer gives corresponding results. -/
+theorem cursor_invariant_ctx {ρ : Nat → Nat → Prop} (hρ : LineRel ρ) (ctx : Ctx) (c c' : Cur)
+    (hc : CurRel ρ c.cur c'.cur) (hs : Sim ρ c.rest c'.rest) : CtxInvariant ρ ctx c c' := by
+  obtain ⟨cur, rest⟩ := c
+  obtain ⟨cur', rest'⟩ := c'
+  simp only at hc hs
+  have hi : cur'.indent = cur.indent := hc.indent
+  cases hs with
+  | done hl hl' r =>
+    have same : ∀ k, (sameLineLoop rest' k).map (·.1.tok) = (sameLineLoop rest k).map (·.1.tok) := by
+      intro k
+      cases hn : hasNL rest with
+      | false =>
+        rw [sameLineLoop_allWs rest (allWs_of_noNL hl hn), sameLineLoop_allWs rest' (r.allWs hl' hn)]
+      | true =>
+        obtain ⟨x, j, e, hx⟩ := sameLineLoop_nl hl hn [] k
+        obtain ⟨x', j', e', hx'⟩ := sameLineLoop_nl hl' (by rw [r.nl]; exact hn) [] k
+        simp only [List.append_nil] at e e'
+        simp [e, e', hx, hx']
+    refine ⟨hi, hc.stopLine, ?_, ?_, ?_, ?_, ?_, ?_, ?_, ?_, ?_, ?_, ?_, ?_⟩
+    · simp [peekTokenWithContext, peekLoop_trivia _ _ _ hl, peekLoop_trivia _ _ _ hl', PeekRel.none]
+    · simp [consumeTokenWithContext, consumeCtxLoop_trivia _ _ _ _ hl, consumeCtxLoop_trivia _ _ _ _ hl']
+    · simp [consumeTokenWithContext, consumeCtxLoop_trivia _ _ _ _ hl]
+    · simp [consumeTokenWithContext, consumeCtxLoop_trivia _ _ _ _ hl, consumeCtxLoop_trivia _ _ _ _ hl', Sim.nil]
+    · simp [consumeUntilTokenWithContext, consumeUntilCtxLoop_trivia _ _ _ _ hl, consumeUntilCtxLoop_trivia _ _ _ _ hl']
+    · simp [consumeUntilTokenWithContext, consumeUntilCtxLoop_trivia _ _ _ _ hl, consumeUntilCtxLoop_trivia _ _ _ _ hl', PreRel]
+    · simpa [peekNextTokenOnSameLine] using same 0
+    · simpa [peekNextTokenOnSameLineWithSpan, Option.map_map, Function.comp_def] using same 0
+    · cases hn : hasNL rest with
+      | false =>
+        simp [consumeNextTokenOnSameLine, consumeSameLineLoop_allWs rest (allWs_of_noNL hl hn),
+          consumeSameLineLoop_allWs rest' (r.allWs hl' hn)]
+      | true =>
+        have h1 := consumeSameLine_nl hl hn [] cur
+        have h2 := consumeSameLine_nl hl' (by rw [r.nl]; exact hn) [] cur'
+        simp only [List.append_nil] at h1 h2
+        simp [consumeNextTokenOnSameLine, h1, h2]
+    · intro hsome hne
+      cases hn : hasNL rest with
+      | false =>
+        simp [consumeNextTokenOnSameLine, consumeSameLineLoop_allWs rest (allWs_of_noNL hl hn)] at hsome
+      | true =>
+        have h1 := consumeSameLine_nl hl hn [] cur
+        simp only [List.append_nil] at h1
+        exact absurd h1 hne
+    · cases hn : hasNL rest with
+      | false =>
+        simp [consumeUntilNextTokenOnSameLine, peekToken, peekTokenN,
+          consumeUntilSameLineLoop_allWs rest (allWs_of_noNL hl hn) cur,
+          consumeUntilSameLineLoop_allWs rest' (r.allWs hl' hn) cur']
+      | true =>
+        have h1 := consumeUntilSameLine_nl hl hn [] cur
+        have h2 := consumeUntilSameLine_nl hl' (by rw [r.nl]; exact hn) [] cur'
+        simp only [List.append_nil] at h1 h2
+        simp only [consumeUntilNextTokenOnSameLine, peekToken, peekTokenN]
+        rw [h1, h2]
+    · intro hne
+      cases hn : hasNL rest with
+      | false =>
+        left
+        exact ⟨consumeUntilSameLineLoop_allWs rest (allWs_of_noNL hl hn) cur,
+          consumeUntilSameLineLoop_allWs rest' (r.allWs hl' hn) cur'⟩
+      | true =>
+        have h1 := consumeUntilSameLine_nl hl hn [] cur
+        simp only [List.append_nil] at h1
+        simp only [consumeUntilNextTokenOnSameLine, peekToken, peekTokenN] at hne
+        exact absurd h1 hne
+  | @tok _ _ g g' t t' r r' e e' hg hg' gr ht tr s =>
+    subst e; subst e'
+    have ht' := tr.sig ht
+    have hnl : hasNL g' = hasNL g := gr.nl
+    have lt1 : (t'.span.stop.line > cur'.span.stop.line) ↔ (t.span.stop.line > cur.span.stop.line) :=
+      (hρ _ _ _ _ hc.stopLine tr.stopLine).symm
+    have lt2 : (t'.span.start.line > cur'.span.stop.line) ↔ (t.span.start.line > cur.span.stop.line) :=
+      (hρ _ _ _ _ hc.stopLine tr.startLine).symm
+    refine ⟨hi, hc.stopLine, ?_, ?_, ?_, ?_, ?_, ?_, ?_, ?_, ?_, ?_, ?_, ?_⟩
+    · simp only [peekTokenWithContext, peekLoop_gap _ _ _ _ _ hg ht, peekLoop_gap _ _ _ _ _ hg' ht', hnl]
+      exact peekDecide_rel ctx _ _ _ hi tr
+    · simp [consumeTokenWithContext, currentLine, currentIndent, consumeCtxLoop_gap _ _ _ _ _ _ hg ht,
+        consumeCtxLoop_gap _ _ _ _ _ _ hg' ht', tr.tok, tr.indent, hi, lt1]
+    · intro _
+      simpa [consumeTokenWithContext, consumeCtxLoop_gap _ _ _ _ _ _ hg ht, consumeCtxLoop_gap _ _ _ _ _ _ hg' ht'] using tr.cur
+    · simpa [consumeTokenWithContext, consumeCtxLoop_gap _ _ _ _ _ _ hg ht, consumeCtxLoop_gap _ _ _ _ _ _ hg' ht'] using s
+    · simp [consumeUntilTokenWithContext, currentLine, currentIndent, consumeUntilCtxLoop_gap _ _ _ _ _ _ hg ht,
+        consumeUntilCtxLoop_gap _ _ _ _ _ _ hg' ht', tr.indent, hi, lt2]
+    · right
+      refine ⟨t, t', r, r', ?_, ?_, ht, tr, s⟩
+      · simp [consumeUntilTokenWithContext, consumeUntilCtxLoop_gap _ _ _ _ _ _ hg ht]
+      · simp [consumeUntilTokenWithContext, consumeUntilCtxLoop_gap _ _ _ _ _ _ hg' ht']
+    · cases hn : hasNL g with
+      | false =>
+        simp [peekNextTokenOnSameLine, sameLine_peek_ws hg hn t r ht,
+          sameLine_peek_ws hg' (by rw [hnl]; exact hn) t' r' ht', tr.tok]
+      | true =>
+        simp only [peekNextTokenOnSameLine]
+        rw [sameLine_peek_nl hg hn, sameLine_peek_nl hg' (by rw [hnl]; exact hn)]
+    · cases hn : hasNL g with
+      | false =>
+        simp [peekNextTokenOnSameLineWithSpan, sameLine_peek_ws hg hn t r ht,
+          sameLine_peek_ws hg' (by rw [hnl]; exact hn) t' r' ht', tr.tok]
+      | true =>
+        have h1 := sameLine_peek_nl hg hn (t :: r)
+        have h2 := sameLine_peek_nl hg' (by rw [hnl]; exact hn) (t' :: r')
+        simp only [peekNextTokenOnSameLineWithSpan, Option.map_map, Function.comp_def]
+        simpa using h2.trans h1.symm
+    · cases hn : hasNL g with
+      | false =>
+        simp [consumeNextTokenOnSameLine, consumeSameLineLoop_ws g t r (allWs_of_noNL hg hn) (not_ws_of_sig ht),
+          consumeSameLineLoop_ws g' t' r' (gr.allWs hg' hn) (not_ws_of_sig ht'), tr.tok]
+      | true =>
+        simp only [consumeNextTokenOnSameLine]
+        rw [consumeSameLine_nl hg hn, consumeSameLine_nl hg' (by rw [hnl]; exact hn)]
+    · intro _ hne
+      cases hn : hasNL g with
+      | false =>
+        simp only [consumeNextTokenOnSameLine, consumeSameLineLoop_ws g t r (allWs_of_noNL hg hn) (not_ws_of_sig ht),
+          consumeSameLineLoop_ws g' t' r' (gr.allWs hg' hn) (not_ws_of_sig ht')]
+        exact ⟨tr.cur, s⟩
+      | true =>
+        simp only [consumeNextTokenOnSameLine] at hne
+        exact absurd (consumeSameLine_nl hg hn (t :: r) cur) hne
+    · cases hn : hasNL g with
+      | false =>
+        simp [consumeUntilNextTokenOnSameLine, peekToken, peekTokenN,
+          consumeUntilSameLineLoop_ws g t r (allWs_of_noNL hg hn) (not_ws_of_sig ht),
+          consumeUntilSameLineLoop_ws g' t' r' (gr.allWs hg' hn) (not_ws_of_sig ht'), tr.tok]
+      | true =>
+        simp only [consumeUntilNextTokenOnSameLine, peekToken, peekTokenN]
+        rw [consumeUntilSameLine_nl hg hn, consumeUntilSameLine_nl hg' (by rw [hnl]; exact hn)]
+    · intro hne
+      cases hn : hasNL g with
+      | false =>
+        right
+        refine ⟨t, t', r, r', ?_, ?_, ht, tr, s⟩
+        · simp [consumeUntilNextTokenOnSameLine, consumeUntilSameLineLoop_ws g t r (allWs_of_noNL hg hn) (not_ws_of_sig ht)]
+        · simp [consumeUntilNextTokenOnSameLine, consumeUntilSameLineLoop_ws g' t' r' (gr.allWs hg' hn) (not_ws_of_sig ht')]
+      | true =>
+        simp only [consumeUntilNextTokenOnSameLine, peekToken, peekTokenN] at hne
+        exact absurd (consumeUntilSameLine_nl hg hn (t :: r) cur) hne
+
+
+/-! ### cursors on the last skipped trivia token (after `consume_until_*`) -/
+
+/-- **Partial** (excluded: `current_indent()` itself, see `current_indent_pre_not_invariant`).
+After `consume_until_token_with_context` / `consume_until_next_token_on_same_line` the current
+token is whatever trivia token was skipped last — unrelated on the two sides. Directly in front of
+corresponding significant tokens the peeks are invariant unconditionally, the consumed token and the
+cursors afterwards correspond, and the returned context is the same provided the token does not end
+on a later line than the cursor (lexer output: the cursor ends where the single-line token starts;
+`span_chain` of C09). -/
+theorem cursor_invariant_pre_partial {ρ : Nat → Nat → Prop} (ctx : Ctx) (cur cur' t t' : Lexed) (r r' : List Lexed)
+    (ht : isTrivia t.tok = false) (tr : TokRel ρ t t') (s : Sim ρ r r') :
+    PeekRel ρ (peekTokenWithContext ctx ⟨cur, t :: r⟩) (peekTokenWithContext ctx ⟨cur', t' :: r'⟩) ∧
+    peekNextTokenOnSameLine ⟨cur', t' :: r'⟩ = peekNextTokenOnSameLine ⟨cur, t :: r⟩ ∧
+    ((consumeTokenWithContext ctx ⟨cur', t' :: r'⟩).1.map (·.1) = (consumeTokenWithContext ctx ⟨cur, t :: r⟩).1.map (·.1)) ∧
+    CurRel ρ (consumeTokenWithContext ctx ⟨cur, t :: r⟩).2.cur (consumeTokenWithContext ctx ⟨cur', t' :: r'⟩).2.cur ∧
+    Sim ρ (consumeTokenWithContext ctx ⟨cur, t :: r⟩).2.rest (consumeTokenWithContext ctx ⟨cur', t' :: r'⟩).2.rest ∧
+    (t.span.stop.line ≤ cur.span.stop.line → t'.span.stop.line ≤ cur'.span.stop.line →
+      (consumeTokenWithContext ctx ⟨cur', t' :: r'⟩).1 = (consumeTokenWithContext ctx ⟨cur, t :: r⟩).1) := by
+  have ht' := tr.sig ht
+  have p := peekLoop_gap ctx cur.indent [] t r AllTrivia.nil ht 0 true
+  have p' := peekLoop_gap ctx cur'.indent [] t' r' AllTrivia.nil ht' 0 true
+  have c := consumeCtxLoop_gap ctx cur.span.stop.line cur.indent [] t r AllTrivia.nil ht cur
+  have c' := consumeCtxLoop_gap ctx cur'.span.stop.line cur'.indent [] t' r' AllTrivia.nil ht' cur'
+  simp only [List.nil_append] at p p' c c'
+  refine ⟨?_, ?_, ?_, ?_, ?_, ?_⟩
+  · simp only [peekTokenWithContext, p, p']
+    simp only [peekDecide, hasNL, Bool.not_false, Bool.and_self, if_true]
+    exact PeekRel.some tr.tok tr
+  · simp [peekNextTokenOnSameLine, sameLineLoop, not_ws_of_sig ht, tr.tok]
+  · simp [consumeTokenWithContext, currentLine, currentIndent, c, c', tr.tok]
+  · simpa [consumeTokenWithContext, currentLine, currentIndent, c, c'] using tr.cur
+  · simpa [consumeTokenWithContext, currentLine, currentIndent, c, c'] using s
+  · intro h h'
+    have d : ¬ (t.span.stop.line > cur.span.stop.line) := by omega
+    have d' : ¬ (t'.span.stop.line > cur'.span.stop.line) := by omega
+    simp [consumeTokenWithContext, currentLine, currentIndent, c, c', tr.tok, newContext, d, d']
+
+/-! ### witnesses -/
+
+/-- a token for the witnesses: kind, start line, end line, indent -/
+def wtok (k : Token) (l l2 ind : Nat) : Lexed :=
+  { tok := k, startByte := 0, endByte := 0, span := ⟨⟨l, 0⟩, ⟨l2, 0⟩⟩, indent := ind }
+
+/-- lines from `L` on move down by `k` -/
+def shift (L k : Nat) : Nat → Nat → Prop := fun a a' => a' = if a ≥ L then a + k else a
+
+theorem shift_lineRel (L k : Nat) : LineRel (shift L k) := by
+  intro a a' b b' ha hb
+  unfold shift at ha hb
+  subst ha; subst hb
+  split <;> split <;> omega
+
+/-- `s⏎x`  -/
+def witA : List Lexed :=
+  [wtok .id 0 0 0, wtok .newLine 0 1 0, wtok .id 1 1 0]
+/-- `s⏎␠#⏎x` — the same program with an indented comment-only line inserted -/
+def witB : List Lexed :=
+  [wtok .id 0 0 0, wtok .newLine 0 1 0, wtok .whitespace 1 1 1, wtok .commentSingle 1 1 1, wtok .newLine 1 2 1,
+   wtok .id 2 2 0]
+
+theorem witAB_edit : TriviaEdit (shift 1 1) witA witB := by
+  refine TriviaEdit.line [wtok .id 0 0 0] [wtok .whitespace 1 1 1, wtok .commentSingle 1 1 1, wtok .newLine 1 2 1]
+    [wtok .id 1 1 0] [wtok .id 2 2 0] (wtok .newLine 0 1 0) rfl ?_ ?_ ?_
+  · intro t ht
+    simp at ht
+    rcases ht with rfl | rfl | rfl <;> decide
+  · intro t ht _
+    simp at ht
+    subst ht
+    exact ⟨by simp [shift, wtok], by simp [shift, wtok]⟩
+  · exact Moved.cons rfl (fun _ => ⟨rfl, rfl, by simp [shift, wtok], by simp [shift, wtok]⟩) Moved.nil
+
+/-- **Negation (defect F-C10-1).** `current_indent()` read directly after
+`consume_until_token_with_context` is not invariant under inserting a comment-only line: the
+current token is then the `NewLine` that ends the inserted line and carries *its* indent.
+`consume_switch_expression` / `consume_match_expression` read it exactly there. -/
+theorem current_indent_pre_not_invariant :
+    ∃ (ρ : Nat → Nat → Prop) (ts ts' : List Lexed) (ctx : Ctx), LineRel ρ ∧ TriviaEdit ρ ts ts' ∧
+      currentIndent (consumeUntilTokenWithContext ctx (consumeToken (Cur.init ts)).2).2 ≠
+      currentIndent (consumeUntilTokenWithContext ctx (consumeToken (Cur.init ts')).2).2 :=
+  ⟨shift 1 1, witA, witB, Ctx.permissive, shift_lineRel 1 1, witAB_edit, by decide⟩
+
+/-- … while everything `cursor_invariant_ctx` promises does hold for the same witness
+(non-vacuity of its hypotheses on a non-trivial edit). -/
+example : CtxInvariant (shift 1 1) Ctx.permissive (consumeToken (Cur.init witA)).2 (consumeToken (Cur.init witB)).2 :=
+  cursor_invariant_ctx (shift_lineRel 1 1) _ _ _
+    ⟨rfl, by simp [shift, consumeToken, Cur.init, witA, witB, wtok]⟩
+    (by
+      have m : Moved (shift 1 1) [wtok .id 1 1 0] [wtok .id 2 2 0] :=
+        Moved.cons rfl (fun _ => ⟨rfl, rfl, by simp [shift, wtok], by simp [shift, wtok]⟩) Moved.nil
+      have ht : AllTrivia [wtok .whitespace 1 1 1, wtok .commentSingle 1 1 1, wtok .newLine 1 2 1] := by
+        intro t ht
+        simp at ht
+        rcases ht with rfl | rfl | rfl <;> decide
+      exact Sim.after_nl (n := wtok .newLine 0 1 0) _ rfl ht m.sim)
+
+/-- ` ␠x` and `⏎␠x` (a blank line inserted *before the first token of the file*) -/
+def witC : List Lexed := [wtok .whitespace 0 0 2, wtok .id 0 0 2]
+def witD : List Lexed := [wtok .newLine 0 1 0, wtok .whitespace 1 1 2, wtok .id 1 1 2]
+
+/-- **Negation (defect F-C10-2).** Inserting a trivia line before the first token of the file is not
+invariant: `same_line` is true for the first token only while no `NewLine` token precedes it, and
+the `Equal(0)` rule of the main block is skipped when `same_line`. This is why `TriviaEdit.line`
+demands a preceding `NewLine` token. -/
+theorem line_edit_at_file_start_not_invariant :
+    (peekTokenWithContext { Ctx.permissive with expected := .equal 0 } (Cur.init witC)).isSome = true ∧
+    peekTokenWithContext { Ctx.permissive with expected := .equal 0 } (Cur.init witD) = none := by
+  decide
+
+/-- `peek_token_with_context` clears `same_line` only on a `NewLine` *token*: a multi-line comment
+that contains a line break leaves the next token "on the same line" although its line is later —
+even where line breaks are not allowed. (Not an edit of the class above: there the comment is
+followed by a `NewLine` token.) -/
+theorem multiline_comment_keeps_same_line :
+    (peekTokenWithContext Ctx.inline
+      ⟨wtok .id 0 0 0, [wtok .whitespace 0 0 0, wtok .commentMulti 0 1 0, wtok .whitespace 1 1 0, wtok .id 1 1 0]⟩).isSome = true ∧
+    (peekTokenWithContext Ctx.inline
+      ⟨wtok .id 0 0 0, [wtok .newLine 0 1 0, wtok .whitespace 1 1 2, wtok .id 1 1 2]⟩) = none := by
+  decide
+
+/-! ### the indentation rule, peeking, raw access, the token queue -/
+
+/-- Which continuation lines `peek_token_with_context` accepts, per `Indentation` variant. -/
+theorem indent_rule_table (i s e : Nat) :
+    indentAccepts .flexible i s = true ∧
+    (indentAccepts (.equal e) i s = true ↔ i = e) ∧
+    (indentAccepts .greater i s = true ↔ i > s) ∧
+    (indentAccepts (.greaterThan e) i s = true ↔ i > e) ∧
+    (indentAccepts (.greaterOrEqual e) i s = true ↔ i ≥ e) := by
+  simp [indentAccepts]
+
+/-- `else` / `catch` / `finally` at the indentation of their `if` / `try` (rule `GreaterOrEqual` /
+`Equal`) are accepted; the same token under `Greater` is not — the decision the DESIGN §11 mutant
+"GreaterOrEqual treated as Greater" flips. -/
+theorem indent_rule_else_at_equal_indent :
+    indentAccepts (.greaterOrEqual 2) 2 2 = true ∧ indentAccepts (.equal 2) 2 2 = true ∧
+    indentAccepts .greater 2 2 = false ∧ indentAccepts (.greaterThan 2) 2 2 = false := by
+  decide
+
+/-- The token returned by `peek_token_with_context` is the first non-trivia token after the cursor:
+only trivia is skipped, and the peek count is the number of skipped tokens. -/
+theorem peek_skips_only_trivia (ctx : Ctx) (c : Cur) (i : PeekInfo)
+    (h : peekTokenWithContext ctx c = some i) :
+    ∃ g r, c.rest = g ++ i.info :: r ∧ AllTrivia g ∧ isTrivia i.info.tok = false ∧
+      i.peekCount = g.length ∧ i.tok = i.info.tok := by
+  rcases split_gap c.rest with hl | ⟨g, t, r, e, hg, ht⟩
+  · simp [peekTokenWithContext, peekLoop_trivia _ _ _ hl] at h
+  · refine ⟨g, r, ?_⟩
+    simp only [peekTokenWithContext, e, peekLoop_gap _ _ _ _ _ hg ht, peekDecide] at h
+    have : i = ⟨t.tok, 0 + g.length, t⟩ := by
+      split at h
+      · exact (Option.some.inj h).symm
+      · split at h
+        · split at h
+          · exact (Option.some.inj h).symm
+          · cases h
+        · cases h
+    subst this
+    exact ⟨e, hg, ht, by simp, rfl⟩
+
+/-- and conversely nothing significant is ever skipped: when it answers `none` although a
+significant token follows, that token is on a later line and the context rejects it -/
+theorem peek_none_iff (ctx : Ctx) (cur : Lexed) (g : List Lexed) (t : Lexed) (r : List Lexed)
+    (hg : AllTrivia g) (ht : isTrivia t.tok = false) :
+    peekTokenWithContext ctx ⟨cur, g ++ t :: r⟩ = none ↔
+      hasNL g = true ∧ (ctx.allowLinebreaks = false ∨ indentAccepts ctx.expected t.indent cur.indent = false) := by
+  simp only [peekTokenWithContext, peekLoop_gap _ _ _ _ _ hg ht, peekDecide]
+  cases hasNL g <;> cases ctx.allowLinebreaks <;> cases indentAccepts ctx.expected t.indent cur.indent <;> simp
+
+/-- Raw access (`peek_token_n`, `consume_token`) at corresponding cursors: the next raw token is
+trivia on both sides or the same significant kind; and when the next significant token is on the
+cursor's line (no `NewLine` in the gap) the raw tokens up to and including it are identical in kind.
+(The one place that tells `Whitespace` from other trivia, `parse_call_args`, does so only then.) -/
+theorem cursor_invariant_raw {ρ : Nat → Nat → Prop} (c c' : Cur) (hs : Sim ρ c.rest c'.rest) :
+    ((∃ k, peekToken c = some k ∧ peekToken c' = some k ∧ isTrivia k = false) ∨
+     (∃ k k', peekToken c = some k ∧ peekToken c' = some k' ∧ isTrivia k = true ∧ isTrivia k' = true) ∨
+     (peekToken c = none ∧ peekToken c' = none)) ∧
+    (∀ g t r, c.rest = g ++ t :: r → AllTrivia g → isTrivia t.tok = false → hasNL g = false →
+      ∀ n, n ≤ g.length → peekTokenN n c' = peekTokenN n c) := by
+  obtain ⟨cur, rest⟩ := c
+  obtain ⟨cur', rest'⟩ := c'
+  simp only at hs
+  constructor
+  · cases hs with
+    | done hl hl' r =>
+      cases rest with
+      | nil =>
+        have := r.eq_nil
+        subst this
+        right; right; simp [peekToken, peekTokenN]
+      | cons x xs =>
+        cases rest' with
+        | nil =>
+          have h := r.symm.eq_nil
+          cases h
+        | cons y ys =>
+          right; left
+          exact ⟨x.tok, y.tok, by simp [peekToken, peekTokenN], by simp [peekToken, peekTokenN], hl.head, hl'.head⟩
+    | @tok _ _ g g' t t' r r' e e' hg hg' gr ht tr s =>
+      subst e; subst e'
+      cases g with
+      | nil =>
+        have := gr.eq_nil
+        subst this
+        left
+        exact ⟨t.tok, by simp [peekToken, peekTokenN], by simp [peekToken, peekTokenN, tr.tok], ht⟩
+      | cons x xs =>
+        cases g' with
+        | nil =>
+          have h := gr.symm.eq_nil
+          cases h
+        | cons y ys =>
+          right; left
+          exact ⟨x.tok, y.tok, by simp [peekToken, peekTokenN], by simp [peekToken, peekTokenN], hg.head, hg'.head⟩
+  · intro g t r e hg ht hn n hle
+    simp only at e
+    cases hs with
+    | done hl _ _ =>
+      rw [e] at hl
+      exact (not_allTrivia_split hl ht).elim
+    | @tok _ _ g2 g2' t2 t2' r2 r2' e2 e2' hg2 hg2' gr ht2 tr s =>
+      rw [e] at e2
+      obtain ⟨e1, e3, e4⟩ := split_unique e2 hg hg2 ht ht2
+      subst e1; subst e3; subst e4
+      have kinds : (g2' ++ [t2']).map (·.tok) = (g ++ [t]).map (·.tok) := by
+        simp [gr.same hn, tr.tok]
+      have hlen : g2'.length = g.length := by
+        have := congrArg List.length (gr.same hn)
+        simpa using this
+      have h1 : ∀ (a : List Lexed) (x : Lexed) (b : List Lexed), n ≤ a.length →
+          ((a ++ x :: b)[n]?).map (·.tok) = ((a ++ [x]).map (·.tok))[n]? := by
+        intro a x b hl
+        have : a ++ x :: b = (a ++ [x]) ++ b := by simp
+        rw [this, List.getElem?_append_left (by simp; omega), List.getElem?_map]
+      simp only [peekTokenN, e, e2']
+      rw [h1 g2' t2' r2' (by omega), h1 g t r hle, kinds]
+
+/-- `KotoLexer::peek(n)` with `n ≤ token_queue.len()` — the only way `parser.rs` calls it
+(sequential peeks, `peek_count + 1` after a peek) — is transparent: it returns the `n`-th
+unconsumed token and never underflows. -/
+theorem queue_transparent (rest : List Lexed) (queued n : Nat) (h : n ≤ queued) (hq : queued ≤ rest.length) :
+    queuePeek rest queued n = .ok rest[n]? (min (queued + 1) rest.length) := by
+  unfold queuePeek
+  have hm : max n queued = queued := by omega
+  simp only [hm]
+  have : ¬ (queued > queued + 1) := by omega
+  simp only [this, if_false]
+  have e : queued + (queued + 1 - queued) = queued + 1 := by omega
+  simp only [e]
+  by_cases hn : n < min (queued + 1) rest.length
+  · simp [hn]
+  · have : rest.length ≤ n := by omega
+    simp [hn, List.getElem?_eq_none this]
+
+/-- the quirk itself: peeking two past an empty queue underflows, one past it sees nothing -/
+theorem queue_peek_quirks (a b c : Lexed) :
+    queuePeek [a, b, c] 0 2 = .underflow ∧ queuePeek [a, b, c] 0 1 = .ok none 0 := by
+  simp [queuePeek]
+
+
+/-! ### deletions and sequences of edits -/
+
+/-- deleting trivia is the converse edit -/
+theorem trivia_delete_sim {ρ ts ts'} (e : TriviaEdit ρ ts ts') : Sim (conv ρ) ts' ts ∧ (LineRel ρ → LineRel (conv ρ)) :=
+  ⟨(trivia_edit_sim e).symm, LineRel.conv⟩
+
+/-- any sequence of insertions and deletions: similarity composes, and so does the order-preserving
+line relabelling — `cursor_invariant_ctx` therefore applies to the end points -/
+theorem trivia_edits_compose {ρ σ a b c} (s : Sim ρ a b) (s' : Sim σ b c) :
+    Sim (comp ρ σ) a c ∧ (LineRel ρ → LineRel σ → LineRel (comp ρ σ)) :=
+  ⟨s.trans s', LineRel.comp⟩
+
+/-- `current_line()` values are only ever compared: order and equality are preserved -/
+theorem current_line_comparisons {ρ} (hρ : LineRel ρ) {a a' b b' : Nat} (ha : ρ a a') (hb : ρ b b') :
+    (a < b ↔ a' < b') ∧ (a = b ↔ a' = b') ∧ (a > b ↔ a' > b') :=
+  ⟨hρ a a' b b' ha hb, hρ.eq_iff ha hb, hρ b b' a a' hb ha⟩
 
 end KotoVerif.C10
